@@ -324,7 +324,8 @@ class DeltaEnergyController(IterationController):
 
         inclvl = False
         Eval = energy.value
-        rel = abs(self._Eold-Eval)/max(abs(self._Eold), abs(Eval))
+        scale = max(abs(self._Eold), abs(Eval))
+        rel = abs(self._Eold-Eval)/scale if scale > 0 else 0.
         if self._itcount > 0:
             if rel < self._tol_rel_deltaE:
                 inclvl = True
